@@ -31,6 +31,9 @@ def moveouts(prog):
                     ty = f.locals[op_local(c.args[0])]['s'] if c.args and op_local(c.args[0]) is not None else ''
                     if 'InMemoryData' in ty:
                         what = 'headers'
+                    elif 'index::core::State<' in ty:
+                        # mem::replace(&mut self.inner, <placeholder>): the published index state itself is moved out
+                        what = 'index-state'
             elif c.name == 'pop' and 'HierarchicalFilters' in c.path:
                 what = 'closed-list'
             if what:
@@ -67,6 +70,8 @@ def sink_blocks(prog, f, carry):
             names = core.place_fields(d)
             if names and names[-1] in SHARED_FIELDS and any(p[0] in carry for p in core.rvalue_places(s['r'])):
                 sinks.add(i)
+            if names and names[-1] == 'inner' and 'index::core::State<' in core.place_type_str(f, d) and any(p[0] in carry for p in core.rvalue_places(s['r'])):
+                sinks.add(i)
             # `*guard = value`: store through a (guard-derived) &mut to the shared structure itself
             if not names and d[1] and all(e == '*' for e in d[1]) and any(p[0] in carry for p in core.rvalue_places(s['r'])):
                 ty = f.locals[d[0]]['s']
@@ -95,9 +100,9 @@ def analyse(prog, f, c, what):
     start = c.t['t']
     carry = core.flows_forward(f, c.dest[0], transparent=core.fwd_transparent)
     sinks = sink_blocks(prog, f, carry)
-    if what == 'headers':
+    if what in ('headers', 'index-state'):
         sinks |= state_replacements(f)
-    res = {'err': [], 'cancel': [], 'sinks': sorted(sinks)}
+    res = {'err': [], 'cancel': [], 'dropped': [], 'sink_suspends': [], 'sinks': sorted(sinks)}
     if start is None:
         return res
     # payload emptiness: `if let Some(x) = taken` -- the None edge carries nothing; skip paths through the None edge
@@ -123,8 +128,46 @@ def analyse(prog, f, c, what):
         if kind == 'err' and bb in reach:
             # the err exit def is at the block after from_residual; make sure it is reached without passing a sink
             res['err'].append((bb, f.path([start], [bb], avoid_exit=sinks, avoid_enter=none_edges)))
+    for (bb, kind, payload) in core.exit_defs(f):
+        if kind != 'err' and bb in reach:
+            # the value itself returned to the caller is a hand-over, not a loss
+            if 0 in carry:
+                continue
+            res['dropped'].append((bb, f.path([start], [bb], avoid_exit=sinks, avoid_enter=none_edges)))
+    # a sink that is an awaited call takes ownership at its START; if the callee can really suspend, the hand-back is not atomic
+    for c in f.calls:
+        if c.bb in sinks and c.bb in f.reach_from([start]) :
+            a = f.await_of_start(c.bb)
+            if a is not None and core.await_may_suspend(prog, a):
+                res['sink_suspends'].append(c)
     for y in f.yields:
         if y in reach and y not in sinks:
             # yields of the sink's own await come after the hand-over (START is the sink block) - excluded by avoid_exit
             res['cancel'].append((y, f.path([start], [y], avoid_exit=sinks, avoid_enter=none_edges)))
     return res
+
+
+def dropped_rule(ctx, rid):
+    """a blob moved out of the active slot / the closed list is never silently dropped: every non-error exit reachable from the
+    move-out passes a hand-back (or returns the value); `if let Some(..)` None edges carry nothing.  Functions that consume the
+    storage (`self` by value) are exempt: nothing can observe the slot afterwards."""
+    prog = ctx.prog
+    n = 0
+    for (f, c, what) in moveouts(prog):
+        if what not in ('active_blob', 'closed-list'):
+            continue
+        n += 1
+        root = prog.fns[prog.fns[f.id].root]
+        key = 'moved-out-blob-kept|%s|%s' % (what, root.id)
+        if root.argc >= 1 and not root.locals[1]['s'].startswith('&'):
+            ctx.ok(rid, key, c.where(), 'the function consumes `self` (%s): the storage ceases to exist' % root.locals[1]['s'][:40], nontrivial=False)
+            continue
+        r = analyse(prog, f, c, what)
+        if r['dropped']:
+            bb, path = r['dropped'][0]
+            ctx.bad(rid, key, f.where(bb), 'after `%s` moved the blob out of the %s a normal return is reachable on which it is neither put back nor pushed to the closed list: the blob object is dropped, its records are no longer served or counted for the rest of the session' % (c.name, what),
+                    witness=['bb%d %s' % (b, f.where(b)) for b in (path or [])])
+        else:
+            ctx.ok(rid, key, c.where(), 'every non-error exit passes a hand-back (sinks: %s)' % r['sinks'])
+    if n < 4:
+        raise core.AnchorLost('blob move-out sites: %d' % n)
